@@ -29,6 +29,21 @@ pub struct CrdtSession {
     pub marked_texts: std::collections::BTreeSet<String>,
 }
 
+/// the marks of every reachable text object, as `marks()` reports them (part of the observable state that
+/// a rollback must restore: C28)
+pub fn marks_digest(d: &AutoCommit) -> String {
+    let mut objs: Vec<(String, ObjType)> = vec![];
+    collect_objs(d, &ROOT, ObjType::Map, &mut objs, 0);
+    let mut parts = vec![];
+    for (o, ty) in objs {
+        if ty != ObjType::Text { continue; }
+        if let Ok(ms) = d.marks(parse_exid(&o)) {
+            if !ms.is_empty() { parts.push(format!("{}:[{}]", o, ms.iter().map(|m| format!("{}:{}:{}:{}", m.name(), m.start, m.end, show_scalar(m.value()))).collect::<Vec<_>>().join(","))); }
+        }
+    }
+    parts.join(";")
+}
+
 /// C04 direct oracle on a change just committed by a non-isolated transaction: "its dependencies are the heads
 /// at the start of the transaction plus the actor's own previous change" — the own previous change (seq - 1 of
 /// the same actor) is among the dependencies, and every dependency is an applied change
@@ -267,7 +282,7 @@ pub fn exec(s: &mut CrdtSession, toks: &[&str]) -> Vec<String> {
             if d.pending_ops() == 0 && !s.tx_snapshots.contains_key(toks[1]) {
                 let snap = d.clone().save();
                 s.tx_snapshots.insert(toks[1].to_string(), snap);
-                let st = format!("{} keys={:?}", show_doc(d, None, enc), d.keys(ROOT).collect::<Vec<_>>());
+                let st = format!("{} keys={:?} marks={}", show_doc(d, None, enc), d.keys(ROOT).collect::<Vec<_>>(), marks_digest(d));
                 s.tx_state_snapshots.insert(toks[1].to_string(), st);
             }
         }
@@ -674,7 +689,7 @@ fn exec_inner(s: &mut CrdtSession, toks: &[&str], enc: TextEncoding) -> Vec<Stri
             let mut res = vec![format!("{}", n)];
             // C28 direct oracle: the visible state (all conflict sets, key lists) equals the state before the transaction
             if let Some(before) = s.tx_state_snapshots.remove(toks[1]) {
-                let now = format!("{} keys={:?}", show_doc(d, None, enc), d.keys(ROOT).collect::<Vec<_>>());
+                let now = format!("{} keys={:?} marks={}", show_doc(d, None, enc), d.keys(ROOT).collect::<Vec<_>>(), marks_digest(d));
                 if now != before { res.push("! C28 sig=state-differs the visible state after rollback differs from the state before the transaction".to_string()); }
             }
             // C28 direct oracle: saved bytes equal those before the transaction, and the next change is
